@@ -74,7 +74,7 @@ def gen_program(seed, i):
     rng = random.Random(derive_seed(seed, 'C10', 'prog', i))
     fam = i % 3
     if fam == 0:
-        g = Gen(rng, rt_safe=True, features=('send', 'rand', 'call', 'yinf'))
+        g = Gen(rng, rt_safe=True, features=('send', 'rand', 'call', 'yinf', 'ahead'))
         g.all_seeded = True
     elif fam == 1:
         g = Gen(rng, rt_safe=True, features=('tempo', 'cond', 'flow', 'send', 'rand', 'call', 'yinf'))
@@ -83,7 +83,7 @@ def gen_program(seed, i):
         if g.single_clock == 0 and rng.random() < 0.4:
             g.features.add('beats')
     else:
-        g = Gen(rng, rt_safe=True, features=('pr', 'send', 'rand', 'yinf'))
+        g = Gen(rng, rt_safe=True, features=('pr', 'send', 'rand', 'yinf', 'ahead'))
         g.single_clock = rng.choice([-1, 0])
         if g.single_clock == 0 and rng.random() < 0.5:
             g.features.add('tempo')     # tempo changes while moved tasks are pending
